@@ -179,6 +179,9 @@ func (x *Exec) callSpec(st *State, fn *ssa.Function, args []Value) Value {
 	for i, p := range fn.Params {
 		args[i].T = p.Type()
 	}
+	if ct := x.Prog.Contracts[QualName(fn)]; ct != nil && ct.Opaque && !x.Opt.Reveal {
+		return x.applyOpaque(st, fn, ct, args)
+	}
 	if isSelfRecursive(fn) {
 		def := x.specUF(fn)
 		return x.applySpecUF(st, def, args)
@@ -299,4 +302,73 @@ func (x *Exec) specUF(fn *ssa.Function) *specDef {
 	d.decl.DefBody = res.L[0]
 	x.Notes.Assumed["recursive spec function "+fn.Name()+" is well-founded (it is executable Go; replay runs it)"] = true
 	return d
+}
+
+// applyOpaque models an opaque spec function as an uninterpreted function.
+// "opaque at" functions f(b []byte, p int, rest...) become UF(bytes(b), off(b)+p, rest...)
+// and carry the frame axiom: the value only depends on bytes [q, q+extent(B,q)).
+func (x *Exec) applyOpaque(st *State, fn *ssa.Function, ct *Contract, args []Value) Value {
+	c := x.C
+	resT := fn.Signature.Results().At(0).Type()
+	rl := LayoutOf(resT)
+	if len(rl.Leaves) != 1 {
+		panic(fmt.Errorf("opaque spec function %s must return one scalar", fn.Name()))
+	}
+	name := "opq$" + fn.Name()
+	if ct.OpaqueAt {
+		bytesSort := ArraySort(IdxSort, BV(8))
+		base, off, _, _ := sliceParts(args[0])
+		elem := args[0].T.Underlying().(*types.Slice).Elem()
+		arr := c.Select(x.comp(st, sliceComp(elem, 0), BV(8)), base)
+		pos := c.BVBin("bvadd", off, x.toIdx(args[1]))
+		flat := []*Term{arr, pos}
+		sorts := []*Sort{bytesSort, IdxSort}
+		for _, a := range args[2:] {
+			for _, l := range a.L {
+				flat = append(flat, l)
+				sorts = append(sorts, l.Sort)
+			}
+		}
+		_, known := c.Axioms[name]
+		f := c.DeclareFun(name, sorts, rl.Leaves[0].Sort)
+		if !known && ct.Extent != "" {
+			ext := c.DeclareFun("opq$"+ct.Extent, []*Sort{bytesSort, IdxSort}, IdxSort)
+			B, B2, q, i := c.Var("B", bytesSort), c.Var("B2", bytesSort), c.Var("q", IdxSort), c.Var("i", IdxSort)
+			vars := []*Term{B, B2, q}
+			a1, a2 := []*Term{B, q}, []*Term{B2, q}
+			for k, srt := range sorts[2:] {
+				v := c.Var(fmt.Sprintf("r%d", k), srt)
+				vars = append(vars, v)
+				a1 = append(a1, v)
+				a2 = append(a2, v)
+			}
+			agree := c.Forall([]*Term{i}, c.Implies(c.And(c.BVCmp("bvsle", q, i), c.BVCmp("bvslt", i, c.BVBin("bvadd", q, c.App(ext, B, q)))), c.Eq(c.Select(B, i), c.Select(B2, i))))
+			// multi-pattern: both applications must be present
+			ax := c.intern(&Term{Op: "forall", Args: []*Term{c.Implies(agree, c.Eq(c.App(f, a2...), c.App(f, a1...)))}, Vars: vars, Pats: []*Term{c.App(f, a1...), c.App(f, a2...)}, Sort: BoolSort, Name: "multi"})
+			c.Axioms[name] = append(c.Axioms[name], ax)
+			x.Notes.Assumed[fmt.Sprintf("frame axiom of %s: its value depends only on the %s(b,p) bytes at p (proved with definitions revealed by the lemma named verifLemma_*_frame)", fn.Name(), ct.Extent)] = true
+		}
+		return Value{T: resT, L: []*Term{c.App(f, flat...)}}
+	}
+	var flat []*Term
+	var sorts []*Sort
+	for _, a := range args {
+		if sl, ok := a.T.Underlying().(*types.Slice); ok {
+			base, off, ln, _ := sliceParts(a)
+			lay := LayoutOf(sl.Elem())
+			for k, lf := range lay.Leaves {
+				flat = append(flat, c.Select(x.comp(st, sliceComp(sl.Elem(), k), lf.Sort), base))
+				sorts = append(sorts, ArraySort(IdxSort, lf.Sort))
+			}
+			flat = append(flat, off, ln)
+			sorts = append(sorts, IdxSort, IdxSort)
+			continue
+		}
+		for _, l := range a.L {
+			flat = append(flat, l)
+			sorts = append(sorts, l.Sort)
+		}
+	}
+	f := c.DeclareFun(name, sorts, rl.Leaves[0].Sort)
+	return Value{T: resT, L: []*Term{c.App(f, flat...)}}
 }
